@@ -8,6 +8,21 @@ CLAIMED = {
    note="Trusted: Coq kernel; hand-written model of directory.rs and integer-encoding's LEB128 (checked by the correspondence run, not proved equal to the Rust); law codec_inv for gzip/brotli/zstd (premise of C05_roundtrip, exercised on every case); extraction (ExtrOcamlBasic) + OCaml driver + Rust harness.",
    technique="Coq proof (induction over the entry list, LEB128 arithmetic by lia) + model/implementation correspondence run",
    design="7/C05"),
+ "C07": dict(
+   text="Coq theorems C07_spec, C07_inverse, C07_total, C07_too_large, C07_block, C07_adjacent, C07_children(_distinct), C07_lookup_outside/inside/no_crash prove for all zooms 0-31 and all grid points (no bound) that the model of tile_id/zxy over hilbert_2d's LUT automaton equals the PMTiles v3 reference Hilbert algorithm, is inverted exactly, is total below the first id of zoom 32 and an error above, forms contiguous zoom blocks, is edge-adjacent along the curve, keeps children in one aligned block of four, and that coordinate lookups outside the grid answer 'no tile' and never crash. The model is tied to the Rust code by a differential run (exhaustive zooms 0-5/7, boundary and random points at every zoom 0-32, ids at every block edge, out-of-grid lookups against archives holding the aliased tile) and a direct oracle (independent reference algorithm, exhaustive for zooms 0-10 quick / 0-12 thorough incl. inverse, adjacency and children blocks).",
+   note="Trusted: Coq kernel (closed under the global context); hand-written model of util/tile_id.rs and of hilbert_2d 1.1.0's LUTs (tied by the correspondence run); gen_params.py for MAX_Z and the grid guard; extraction + driver + harness.",
+   technique="Coq proof (4-state automaton simulation by finite case analysis lifted by induction on the zoom; geometric-sum arithmetic) + correspondence run + exhaustive direct oracle",
+   design="7/C07"),
+ "C09": dict(
+   text="Coq theorems C09_length, C09_dec_enc, C09_enc_dec, C09_coord_roundtrip, C09_rejects_short, C09_rejects_magic, C09_accepts_only_valid prove on the model of the deku header layout (IEEE-754 binary64 coordinates via Flocq) that every header serialises to exactly 127 bytes, that parsing the serialisation returns the field values (consuming exactly 127 bytes), that parsing any accepted 127 bytes and serialising again reproduces them - which rests on an analytic proof that all 2^32 stored coordinate values survive i32 -> degrees -> i32 - and that short input, wrong magic/version and unknown enum codes are rejected. The 'nearest multiple of 1e-7' clause is decided by the direct oracle with exact integer arithmetic (known finding D7: double rounding at half-step ties). Tie: differential run on random/boundary headers, every code 0-255 of the enum and flag bytes, every version byte, every truncation length; coordinate sweep through the implementation (2^20 values + stride quick, all 2^32 thorough).",
+   note="Trusted: Coq kernel; Print Assumptions lists the standard-library axioms of the classical reals used by Flocq (sig_forall_dec, sig_not_dec, functional_extensionality_dep, classic); hand-written model of the deku-derived layout, of f64 arithmetic (Flocq Bdiv/Bmult/Bnearbyint/Btrunc, Rust's saturating cast); extraction + driver + harness; gen_params.py for HEADER_BYTES and LAT_LONG_FACTOR.",
+   technique="Coq proof (byte-layout inversion lemmas; Flocq relative-error analysis of two roundings) + correspondence run + exact-arithmetic direct oracle",
+   design="7/C09"),
+ "C19": dict(
+   text="Coq theorems C19_empty_tile, C19_zero_length_serialiser, C19_zero_length_parser (for every byte string: no parsed directory holds an entry of length 0), C19_meta_shape, C19_meta_object_only, C19_unknown_write, C19_unknown_open, C19_unknown_directory prove each rejection contract on the model as an error value (never a crash) with the archive value unchanged. Tie: differential run and direct oracle with the offending element at every index of directories of several sizes x 4 codecs x sync/async, an empty add at every point of an edit history (fresh, in-memory and reader-backed ids; state compared through the snapshot hook), every non-object JSON kind x 4 codecs, Unknown compression on write and open with and without metadata.",
+   note="Trusted: Coq kernel (closed under the global context); hand-written model of tile_manager.rs / directory.rs / pmtiles.rs (tied by the correspondence run); serde_json enters as the json_parse oracle answered by the real library; extraction + driver + harness.",
+   technique="Coq proof (direct from the model's definitions, inversion of the column parser) + correspondence run + direct oracle",
+   design="7/C19"),
 }
 PENDING_REASON = "check not built yet in this revision of /verif (the design in DESIGN.md section 7 covers it); no claim is made until its theorems and correspondence run exist"
 props = [json.loads(l)["id"] for l in open(os.path.join(ROOT, "properties.jsonl"))]
@@ -42,7 +57,7 @@ m = {
    "kind_free_text": "Coq 8.16 development (coq/), model extracted to OCaml (driver/), Rust harness (harness/) built against /repo's working tree; ./check orchestrates proof gate, correspondence gate and direct oracle",
  }],
  "checks": checks,
- "notes": "Fix commits in /repo (see known_findings.json): a3cb79b 1c84b78 43bfcde 67c63db d721c33 b5754cb.",
+ "notes": "Fix commits in /repo (see known_findings.json): a3cb79b 1c84b78 43bfcde 67c63db d721c33 b5754cb. Known findings (open): D7 (C09, C01).",
  "not_applicable": [{"property_id": p, "reason": PENDING_REASON} for p in props if p not in CLAIMED],
 }
 json.dump(m, open(os.path.join(ROOT, "MANIFEST.json"), "w"), indent=1)
